@@ -5,3 +5,4 @@ import Woodpile.Model.ReadN
 import Woodpile.Model.SlidingDeque
 import Woodpile.Proofs.SlidingDeque
 import Woodpile.Props.C15
+import Woodpile.Model.SortedDeque
